@@ -585,10 +585,29 @@ func gen(t *rapid.T) Case {
 	c.FrameLimit = rapid.SampledFrom([]int{100, 1000, 4096, 32768}).Draw(t, "framelimit")
 	c.OpenUs = rapid.SampledFrom([]int{0, 100, 1000, 3000}).Draw(t, "openus")
 	n := rapid.IntRange(0, 30).Draw(t, "nin")
+	if rapid.IntRange(0, 5).Draw(t, "burst") == 0 {
+		// a long burst of small messages behind slow handlers: one run of the connection's job queue takes
+		// many jobs (sizes at and around powers of two and their multiples: internal batch / compaction bounds)
+		k := rapid.SampledFrom([]int{32, 64, 128, 256}).Draw(t, "burstbase")
+		n = k*rapid.IntRange(1, 2).Draw(t, "burstmul") + rapid.IntRange(-1, 2).Draw(t, "burstdelta")
+		for i := 0; i < n; i++ {
+			c.InSizes = append(c.InSizes, 8)
+		}
+		c.HandlerUs = rapid.SampledFrom([]int{50, 300}).Draw(t, "bursthandler")
+		n = 0
+		if rapid.Bool().Draw(t, "steady") {
+			// steady state instead of one burst: messages arrive about as fast as they are handled, so the run
+			// of the job queue goes on and on while the queue mostly holds just the running job
+			c.HandlerUs = 300
+			c.InPaceUs = rapid.SampledFrom([]int{200, 300, 400}).Draw(t, "steadypace")
+		}
+	}
 	for i := 0; i < n; i++ {
 		c.InSizes = append(c.InSizes, rapid.SampledFrom([]int{8, 9, 100, 125, 126, 4000, 65535, 65536, 70000}).Draw(t, "insize"))
 	}
-	c.InPaceUs = rapid.SampledFrom([]int{0, 0, 50, 1000}).Draw(t, "pace")
+	if pace := rapid.SampledFrom([]int{0, 0, 50, 1000}).Draw(t, "pace"); c.InPaceUs == 0 {
+		c.InPaceUs = pace
+	}
 	c.Writers = rapid.SampledFrom([]int{0, 1, 2, 4, 8}).Draw(t, "writers")
 	c.PerWriter = rapid.IntRange(1, 40).Draw(t, "perwriter")
 	k := rapid.IntRange(1, 4).Draw(t, "noutsizes")
@@ -599,7 +618,9 @@ func gen(t *rapid.T) Case {
 	c.Ending = rapid.SampledFrom([]string{"client-close", "client-cut", "server-close", "client-reset"}).Draw(t, "ending")
 	if rapid.IntRange(0, 2).Draw(t, "ctl") == 0 {
 		c.CtlEvery = rapid.SampledFrom([]int{1, 2, 5}).Draw(t, "ctlevery")
-		c.HandlerUs = rapid.SampledFrom([]int{50, 500, 3000}).Draw(t, "handlerus")
+		if len(c.InSizes) <= 30 {
+			c.HandlerUs = rapid.SampledFrom([]int{50, 500, 3000}).Draw(t, "handlerus")
+		}
 	}
 	if vlib.YieldAvailable {
 		c.YieldPerMille = rapid.SampledFrom([]int{0, 0, 20, 100, 300}).Draw(t, "yield")
